@@ -30,8 +30,8 @@ EXPLANATION = ("theorems: spec lemmas of the key-value specification for every s
                "(any injective digest, any codec with decode-after-encode = id), SQL (delete_before_insert) and store-backed caches and "
                "congruence of the combinators, for histories of any length; XOR involution and byte-wise hiding")
 
-KEYS = ["a", "a/b", "a-b", "a~_b", "a/", "a//b", "-R/x", "x/-/a", "a-~X~b~E", "é", "..", "a b"]
-UNSAFE_NESTED = {"a/", "a//b", ".."}
+KEYS = ["a", "a/b", "a-b", "a~_b", "a/", "a//b", "-R/x", "x/-/a", "a-~X~b~E", "é", "..", "a b", "/a"]
+UNSAFE_NESTED = {"a/", "a//b", "..", "/a"}
 # "is it ok?" / b"\xfb\xff\xfe": their base64 texts contain '/' and '+' (the two characters in which the standard and the url-safe alphabet differ)
 VALUES = [None, 0, 7, 1.5, True, "", "text é value", b"", b"\x00\xffbinary\x01", {"a": 1, "b": [1, 2]}, {}, [1, "x"], (1, 2), "is it ok?", b"\xfb\xff\xfe"]
 STATUSES = ["ready", "evaluation", "error", "evaluating parent"]
@@ -39,8 +39,8 @@ ATTR_VALUES = [True, False, "x", "", "y"]
 XOR_CODE = bytes([0x5A, 0x13, 0xC7, 0x2E, 0x91, 0x7F, 0x08])
 # "scfm/" / "scnm/" / "scfm//" / "scnm//": StoreCache(MemoryStore(), "/cache" or "//cache") - a cache path with leading slashes
 # is the same cache as without them; the model receives the path as given and normalises it like the constructor does
-CONFIGS = ["no", "mem", "file", "xor", "fernet", "sql", "sqlstr", "scfm", "scnm", "scff", "scnf", "mem+file", "no+mem", "ifhas", "ifhasnot", "attreq", "proxy", "scfm/", "scnm/", "scfm//", "scnm//", "ifhas+mem"]
-SLASHED = {"scfm/": "/cache", "scnm/": "/cache", "scfm//": "//cache", "scnm//": "//cache"}
+CONFIGS = ["no", "mem", "file", "xor", "fernet", "sql", "sqlstr", "scfm", "scnm", "scff", "scnf", "mem+file", "no+mem", "ifhas", "ifhasnot", "attreq", "proxy", "scfm/", "scnm/", "scfm//", "scnm//", "ifhas+mem", "scnm0", "scfm0"]
+SLASHED = {"scfm/": "/cache", "scnm/": "/cache", "scfm//": "//cache", "scnm//": "//cache", "scnm0": "", "scfm0": ""}      # "": the cache IS the store
 EXACT_UNSTABLE = {"mem", "file", "xor", "fernet", "sql", "sqlstr", "mem+file", "no+mem", "proxy", "no"}
 
 
